@@ -157,7 +157,7 @@ func Tokenize(usage string) ([]*Token, error) {
 				}
 			case o == '-':
 				pos++
-				if pos == eof || usage[pos] == ' ' {
+				if pos == eof || !isOkLongOpt(usage[pos], false) {
 					tkp(TTDoubleDash, "--", start)
 					continue
 				}
